@@ -12,7 +12,7 @@ META = {
         "included, must be one of the built-in types the property lists -- and (2) compared with the element-wise "
         "pythonisation of what the raw Client returns for the same exchange on a second client in the same path."),
     "bounds": ["operations get, getnext, multiget, set, multiset, walk, multiwalk, bulkwalk, bulkget, table, bulktable",
-               "database: 2 scalars + a 2-column x 3-row table, each object present or absent", "value kinds: all 11 (rotation offset symbolic)", "bulk size 1..3"],
+               "database: 2 scalars + a 2-column x 3-row table, each object present or absent", "value kinds: all 11 (rotation offset symbolic)", "bulk size 1..3", "OIDs spelled without / with / partly with a leading dot"],
     "outside": ["larger databases", "TrapInfo (C19)"],
     "stubs": ["sender = trampoline", "get_request_id pinned"],
     "assumptions": ["BulkResult is the documented container of bulkget; its two mappings are checked"],
@@ -55,12 +55,18 @@ def pyvb(vb):
     return (vb.oid.pythonize(), vb.value.pythonize())
 
 
-def run_both(world_py, world_raw, op, bulk):
+def run_both(world_py, world_raw, op, bulk, dot=0):
     from puresnmp.api.pythonic import PyWrapper
     from x690.types import Integer, OctetString
     py = PyWrapper(world_py.client)
     raw = world_raw.client
-    s = ber.oid_str
+    # the wrapper accepts OIDs with and without a leading dot; dot=2 mixes both spellings
+    spell = [0]
+
+    def s(nodes):
+        spell[0] += 1
+        lead = dot == 1 or (dot == 2 and spell[0] % 2 == 1)
+        return ("." if lead else "") + ber.oid_str(nodes)
     P = C.poid
     if op == "get":
         return world_py.run(py.get(s(SCALARS[0]))), world_raw.run(raw.get(P(SCALARS[0]))).pythonize()
@@ -102,7 +108,7 @@ def run_both(world_py, world_raw, op, bulk):
 def make_harness(op):
     def h(*args):
         from puresnmp.util import BulkResult
-        bits, rot, bulk_sym = args[:len(OBJECTS)], args[len(OBJECTS)], args[len(OBJECTS) + 1]
+        bits, rot, bulk_sym, dot_sym = args[:len(OBJECTS)], args[len(OBJECTS)], args[len(OBJECTS) + 1], args[len(OBJECTS) + 2]
         memo = {}
 
         def present(i):
@@ -114,6 +120,7 @@ def make_harness(op):
         with window():
             r = choose(rot, 0, len(KINDS) - 1)
             bulk = choose(bulk_sym, 1, 3)
+            dot = choose(dot_sym, 0, 2)
             universe = [(o, KINDS[(r + i) % len(KINDS)]) for i, o in enumerate(OBJECTS)] + [(C.O("9.1"), ("int", 1))]
             order = sorted(range(len(universe)), key=lambda i: universe[i][0])
             # Database sorts the universe; map its index back to the symbolic bit of the object
@@ -124,7 +131,7 @@ def make_harness(op):
             world_raw = C.World("v2c", Database(universe, present_sorted))
             try:
                 try:
-                    got_py, got_raw = run_both(world_py, world_raw, op, bulk)
+                    got_py, got_raw = run_both(world_py, world_raw, op, bulk, dot)
                     outcome = "ok"
                 except Exception as exc:  # noqa: BLE001
                     outcome = exc
@@ -137,7 +144,7 @@ def make_harness(op):
                     w2 = C.World("v2c", Database(universe, present_sorted))
                     try:
                         from puresnmp.api.pythonic import PyWrapper
-                        run_both(w2, w2, op, bulk)
+                        run_both(w2, w2, op, bulk, dot)
                         raw_fails = False
                     except Exception as exc2:  # noqa: BLE001
                         raw_fails = type(exc2) is type(outcome)
@@ -176,7 +183,10 @@ def jobs(tier):
                                                             "bulkwalk", "bulkget", "table", "bulktable")]
     funcs += ["puresnmp.varbind:PyVarBind.from_raw", "puresnmp.types:TimeTicks.pythonize"]
     for op in OPS:
-        a = [Arg(f"p{i}", 0, 1) for i in range(len(OBJECTS))] + [Arg("rot", 0, len(KINDS) - 1), Arg("bulk", 1, 3 if op.startswith("bulk") else 1)]
-        out.append(Job(f"wrapper-{op}", make_harness(op), a, timeout=600 if quick else 1500, mode="E/concolic-window", functions=funcs,
-                       sample_every=23))
+        dots = (0, 1, 2) if op in ("get", "getnext", "multiget", "set", "multiset", "bulkget") else (0, 1)
+        for dot in dots:
+            a = [Arg(f"p{i}", 0, 1) for i in range(len(OBJECTS))] + [Arg("rot", 0, len(KINDS) - 1), Arg("bulk", 1, 3 if op.startswith("bulk") else 1),
+                                                                      Arg("dot", dot, dot)]
+            out.append(Job(f"wrapper-{op}-dot{dot}", make_harness(op), a, timeout=600 if quick else 1500, mode="E/concolic-window",
+                           functions=funcs, sample_every=23))
     return out
